@@ -733,6 +733,9 @@ def _pure_self_methods(tree: ast.Module) -> set:
     defs = {}
     for m in [n for n in tree.body if isinstance(n, ast.FunctionDef)]:
         defs.setdefault("::" + m.name, []).append(m)          # module-level functions, called by bare name
+    for outer in [n for n in ast.walk(tree) if isinstance(n, ast.FunctionDef)]:
+        for m in [n for n in ast.walk(outer) if isinstance(n, ast.FunctionDef) and n is not outer]:
+            defs.setdefault("::" + m.name, []).append(m)      # nested functions, called by bare name inside their function
     for c in [n for n in tree.body if isinstance(n, ast.ClassDef)]:
         for m in [n for n in c.body if isinstance(n, ast.FunctionDef)]:
             defs.setdefault(m.name, []).append(m)
